@@ -21,6 +21,7 @@ import (
 	"errors"
 	"fmt"
 	"io"
+	"strconv"
 	"strings"
 	"sync"
 	"sync/atomic"
@@ -603,6 +604,11 @@ func TestC09(t *testing.T) {
 			lp.PoolTraceBegin()
 			if f[3] == "stalled" {
 				fmt.Fprintln(w, runStalled(f[2], f[4]))
+			} else if f[2] == "discover" {
+				fmt.Fprintln(w, runDiscover(f[4]))
+			} else if f[2] == "srvstop" {
+				k, _ := strconv.Atoi(strings.TrimPrefix(f[3], "k"))
+				fmt.Fprintln(w, runServerStop(f[1], k))
 			} else {
 				fmt.Fprintln(w, runCase(t, f[1], f[2], f[3], f[4]))
 			}
